@@ -185,3 +185,28 @@ End Gauss.
    from the source), None when there is none. *)
 Definition index_column_unbounded (bound : option N) : Prop :=
   forall n_rows : N, match bound with None => True | Some m => (n_rows <= m)%N end.
+
+From Coq Require Import String.      (* here, not at the top: String.length would shadow List.length above *)
+
+(* ---- the redundant array forms kept by a MultiformOperator object, and remove_terms ----
+   integer (rows), binary = (x bits | z bits), binary_swap = (z bits | x bits).  remove_terms deletes the rows
+   with the given positions from every form it updates; WHICH attributes it updates is regenerated from the
+   source ([updated], names of the self.<attr> the method assigns a shortened array to). *)
+Record mforms : Type := mkForms { f_integer : list iword; f_binary : list (list bool); f_swap : list (list bool) }.
+Definition bin_of (w : iword) : list bool := map xbit w ++ map zbit w.
+Definition swap_of (w : iword) : list bool := map zbit w ++ map xbit w.
+Definition forms_ok (F : mforms) : Prop :=
+  f_binary F = map bin_of (f_integer F) /\ f_swap F = map swap_of (f_integer F).
+Fixpoint remove_idx {X : Type} (idx : list nat) (k : nat) (l : list X) : list X :=
+  match l with
+  | [] => []
+  | x :: r => if existsb (Nat.eqb k) idx then remove_idx idx (S k) r else x :: remove_idx idx (S k) r
+  end.
+Definition has_name (n : string) (l : list string) : bool := existsb (String.eqb n) l.
+Definition mf_remove_forms (updated : list string) (idx : list nat) (F : mforms) : mforms :=
+  mkForms (if has_name "integer"%string updated then remove_idx idx 0 (f_integer F) else f_integer F)
+          (if has_name "binary"%string updated then remove_idx idx 0 (f_binary F) else f_binary F)
+          (if has_name "binary_swap"%string updated then remove_idx idx 0 (f_swap F) else f_swap F).
+Definition forms_updated_all (updated : list string) : bool :=
+  has_name "factors"%string updated && has_name "integer"%string updated && has_name "binary"%string updated
+  && has_name "binary_swap"%string updated && has_name "terms"%string updated.
